@@ -10,10 +10,13 @@ CONSTANTS
   MaxJoins = 2
   MaxReq = 4
   MaxStatus = 2
+  MaxPending = 100
+  PerPeer = 100
   Weak_NoCommitVerify = FALSE
   Weak_SaveBeforeValidate = FALSE
   Weak_NoRedo = FALSE
   Weak_SeenCommitUnchecked = FALSE
+  Weak_RedoAlwaysCountsPending = FALSE
   Weak_NilSlotAddressUnchecked = FALSE
   Weak_StaleMaxPeerHeight = TRUE
   Weak_NoBlockValidation = FALSE
